@@ -251,3 +251,20 @@ Theorem C06_compared_hierarchies_have_the_same_walkable_lists :
       (CTrace a (resolve_flat a) true n e ds <-> CTrace b (resolve_flat b) true n e ds).
 Proof. intros a b top. exact (compared_equal_same_ctrace a b top true). Qed.
 Print Assumptions C06_compared_hierarchies_have_the_same_walkable_lists.
+
+(* the per-call column of loop_restructure_helper (HelperCol.helper_col_of, values 1 / 3 / 4) also means: every
+   decision list that can be walked in the hierarchy before the call can be walked, in the strict reading, in
+   the hierarchy the implementation produced *)
+From V Require Import Model.HelperCol.
+Theorem C06_loop_helper_column_sound :
+  forall h ha lvl loop headers entries exiting exits doms bnames vnames,
+    let c := helper_col_of h ha lvl loop headers entries exiting exits doms bnames vnames in
+    c = 1%Z \/ c = 3%Z \/ c = 4%Z ->
+    exists F : Z -> Prop, forall n e e' ds,
+      (exists b p, find h n = Some b /\ n_kind b = KOrig p) -> E F e e' ->
+      CTrace h (resolve_flat h) true n e ds -> CTrace ha (resolve_flat ha) true n e' ds.
+Proof.
+  intros h ha lvl loop headers entries exiting exits doms bnames vnames.
+  exact (helper_col_sound_c h ha lvl loop headers entries exiting exits doms bnames vnames true).
+Qed.
+Print Assumptions C06_loop_helper_column_sound.
